@@ -664,7 +664,8 @@ class Engine:
                     goal = self.same_value(ra, sta, rb, stb)
                 else:
                     goal = z3.BoolVal(ka == kb)
-                ob = Obligation('%s:functional:%d' % (run.label, k), run.fname, 'functional', hyps, goal, props=sp.props,
+                ob = Obligation('%s:functional:%d' % (run.label, k), run.fname, 'functional', hyps, goal,
+                                props=tuple(getattr(sp, 'functional_props', None) or sp.props),
                                 meta={'clause': 'the result does not depend on the learned state of ' + ', '.join(sp.varies)})
                 ob.path = []
                 run.obligs.append(ob)
